@@ -12,7 +12,7 @@ from ..model import norm_text, AnalysisError
 from ..units import exc_key
 from .. import seqops
 from . import vbs, common
-from .vbs import ReaderRuns, reader_reads, same_seq, MLIB, STOP, VNEXT, unpacked_length, max_len
+from .vbs import ReaderRuns, reader_reads, same_seq, MLIB, STOP, VNEXT, unpacked_length, max_len, length_codecs, packed_u32_value
 
 WRITE = 'mciipm.VbsWriter.write'
 CLOSE = 'mciipm.VbsWriter.close'
@@ -56,10 +56,7 @@ def check(prog, res, tier):
     def formats_of(runs, fname):
         out = set()
         for p in runs.inv:
-            for e in p.events:
-                if e.kind == 'ext-call' and e.data['callee'] in ('struct.pack', 'struct.unpack') and e.under(fname) and e.data['args']:
-                    f0 = p.interp.py_key(p.interp.resolve(e.data['args'][0]))
-                    out.add(f0 if isinstance(f0, str) else '<non-constant>')
+            out |= length_codecs(p, fname)
         return out
 
     def entry_w0(it):
@@ -81,17 +78,12 @@ def check(prog, res, tier):
             func_where(wfi), 'struct.pack/unpack format constants')
     allf = sorted({f for fl in fmts.values() for f in fl})
     missing = [q for q in (WRITE, CLOSE, VNEXT) if not fmts.get(q)]
-    if missing or '<non-constant>' in allf:
-        ob.verdict, ob.detail = UNDECIDED, f'no constant struct format observed in {missing or allf}'
-    elif len(allf) != 1:
-        ob.verdict, ob.detail, ob.witness = REFUTED, f'length prefix formats differ between siblings: { {k: sorted(v) for k, v in fmts.items()} }', {'formats': allf}
+    if missing:
+        ob.verdict, ob.detail = UNDECIDED, f'no length-prefix codec observed in {missing}'
+    elif allf != ['be-u32']:
+        ob.verdict, ob.detail, ob.witness = REFUTED, f'length prefix codecs differ / are not big-endian unsigned 4 bytes: { {k: sorted(v) for k, v in fmts.items()} }', {'codecs': allf}
     else:
-        f0 = allf[0]
-        ok = f0[0] in '>!' and struct.calcsize(f0) == 4 and f0[1:] in ('I', 'L')
-        if ok:
-            ob.verdict, ob.detail = PROVED, f'{len(fmts)} siblings all use {f0!r} (size 4)'
-        else:
-            ob.verdict, ob.detail, ob.witness = REFUTED, f'length prefix format is {f0!r}, not big-endian unsigned 4 bytes', {'format': f0}
+        ob.verdict, ob.detail = PROVED, f'{len(fmts)} siblings all use a 4-byte big-endian unsigned length'
     res.add(ob)
 
     # ---------------- C03.b writer emission
@@ -118,15 +110,11 @@ def check(prog, res, tier):
                     return [definite(f'write() hands {len(sw)} pieces to the sink, expected prefix then record')]
             (e1, d1), (e2, d2) = sw
             fails = []
-            okp = isinstance(d1, SeqV) and len(d1.segs) == 1 and isinstance(d1.segs[0], Opq) and \
-                isinstance(d1.segs[0].desc, tuple) and d1.segs[0].desc[0] == 'pack'
-            if not okp:
-                fails.append(definite(f'first piece is not a packed length: {d1!r}', e1.node))
-            else:
-                vals = d1.segs[0].desc[2]
-                if not (len(vals) == 1 and isinstance(vals[0], IntV)
-                        and p.store.decide_eq0(vals[0].lin - rec.length()) is True):
-                    fails.append(definite(f'packed value is {vals!r}, not len(record)', e1.node))
+            pv = packed_u32_value(d1)
+            if pv is None:
+                fails.append(definite(f'first piece is not a 4-byte big-endian packed length: {d1!r}', e1.node))
+            elif p.store.decide_eq0(pv.lin - rec.length()) is not True:
+                fails.append(definite(f'packed value is {pv!r}, not len(record)', e1.node))
             if not same_seq(p, d2, rec):
                 fails.append(definite(f'second piece is {d2!r}, not the record itself', e2.node))
             return fails
@@ -146,9 +134,8 @@ def check(prog, res, tier):
         if not sw:
             return [definite('close() writes no terminator')]
         d = sw[0][1]
-        ok = isinstance(d, SeqV) and len(d.segs) == 1 and isinstance(d.segs[0], Opq) and isinstance(d.segs[0].desc, tuple) \
-            and d.segs[0].desc[0] == 'pack' and len(d.segs[0].desc[2]) == 1 and isinstance(d.segs[0].desc[2][0], IntV) \
-            and p.store.decide_eq0(d.segs[0].desc[2][0].lin) is True
+        pv = packed_u32_value(d)
+        ok = pv is not None and p.store.decide_eq0(pv.lin) is True
         ok = ok or (isinstance(d, SeqV) and d.is_lit() and d.lit_value() == b'\x00\x00\x00\x00')
         return [] if ok else [definite(f'terminator is {d!r}, not a packed zero length', sw[0][0].node)]
     res.add(runs_c.judge('C03.b', 'VbsWriter.close emits the zero-length terminator', func_where(cfi),
